@@ -15,11 +15,11 @@ CHECKS = {
             E1_NOTE, "DESIGN.md section 4 C01"),
     "C02": ("txn-mc", "model_checking",
             "explicit-state BFS to closure over the real handlers; terminal-state oracle plus deadlock and cycle (livelock) detection on the state graph",
-            "Acknowledged mode, every placement of up to F faults (drop/duplicate/overtake/delay; F=1 everywhere, F=2 on small files of the deferred and immediate procedures quick; F=2 everywhere and F=3 drops-only with limit 4 thorough) over all PDUs of both directions, sizes 0,1,seg-1,seg,seg+1,2seg,(3seg-1), four NAK procedures, CRC variant: every terminal state must have destination == source, receiver and sender success indications, both transactions ended; no deadlock, no cycle.",
+            "Acknowledged mode, every placement of up to F faults (drop/duplicate/overtake/delay; F=1 everywhere, F=2 on small files of the deferred and immediate procedures quick; F=2 everywhere and F=3 drops-only with limit 4 thorough) over all PDUs of both directions, sizes 0,1,seg-1,seg,seg+1,2seg,(3seg-1), four NAK procedures, CRC variant, segment sizes at and below the size of one NAK segment request (12, 8, 7, 4, 1): every terminal state must have destination == source, receiver and sender success indications, both transactions ended; no deadlock, no cycle, no side emitting PDUs for ever without input (spin). Daemon level (daemon-dbx): real daemons, a single acknowledged transfer (17 bytes, <= 1 deviation; the empty file, <= 2 deviations so that the EOF is the first PDU to arrive): every PDU for a live or new receiver must be handed to a transaction, and a transfer that leaves the transaction model is run on over a faithful link and must still deliver the file when no PDU was lost twice and nothing was delayed.",
             E1_NOTE, "DESIGN.md section 4 C02"),
     "C03": ("txn-mc", "model_checking",
             "explicit-state BFS to closure with blackout as an ordinary event (placed before/after every PDU), graph conditions: no deadlock state, no cycle, time bound per path",
-            "Blackout of either/both directions at every state of the exchange, alone, combined with one fault (drop/dup/delay), combined with a user cancel at either entity and one fault, and with a NAK or keep-alive prompt at any state (also in unacknowledged mode with closure); plus independently the C02 fault pool; both modes, closure, NAK procedures, max_count 2 (and 3 thorough), default and Abandon handlers: no Active transaction is ever left without an enabled event (deadlock), the time-abstract state graph is acyclic (no livelock), and every transaction ends within (max_count+1)*(inactivity+ack+nak) virtual seconds after the last PDU delivered to it.",
+            "Blackout of either/both directions at every state of the exchange, alone, combined with one fault (drop/dup/delay), combined with a user cancel at either entity and one fault, and with a NAK or keep-alive prompt at any state (also in unacknowledged mode with closure); plus independently the C02 fault pool; both modes, closure, NAK procedures, max_count 2 (and 3 thorough), default and Abandon handlers: plus the immediate NAK procedure crossed with a cancel at the receiver and late file data (all four procedures and both cancellers thorough), and a segment size below one NAK request: no Active transaction is ever left without an enabled event (deadlock), the time-abstract state graph is acyclic (no livelock), no side emits more PDUs in a row than the exchange can need without input or timer (spin), and every transaction ends within (max_count+1)*(inactivity+ack+nak) virtual seconds after the last PDU delivered to it.",
             E1_NOTE + " The daemon-level clause (keeps serving other transactions) is part of C11's daemon-dbx runs.", "DESIGN.md section 4 C03"),
     "C04": ("txn-mc", "model_checking",
             "explicit-state BFS to closure with straggler re-delivery of every PDU ever sent, armed from the receiver's first success indication",
@@ -27,11 +27,11 @@ CHECKS = {
             E1_NOTE, "DESIGN.md section 4 C04"),
     "C07": ("txn-mc", "model_checking",
             "explicit-state BFS to closure; the explorer injects NAK PDUs from an alphabet of conforming and non-conforming request lists at every state; monitor on every PDU the sender emits",
-            "Every PDU the real sender hands to the transport is checked: file data bytes/offset/length against the source, first pass tiles the file once in order before EOF, retransmissions lie inside what was requested and everything requested inside the file is retransmitted before the sender goes idle, cursor unchanged by retransmissions, metadata/EOF fields (size, names, reference checksum), header ids/mode/direction, length field through encode/decode. NAK alphabet: empty, beyond EOF, longer than a segment, overlapping, unsorted, duplicated, the 0-0 marker; 1 (quick) / 2 (thorough) injected NAKs also during the first pass; real-receiver NAKs under F faults; user suspend/resume at the sender at every state.",
+            "Every PDU the real sender hands to the transport is checked: file data bytes/offset/length against the source, first pass tiles the file once in order before EOF, retransmissions lie inside what was requested and everything requested inside the file is retransmitted before the sender goes idle, cursor unchanged by retransmissions, metadata/EOF fields (size, names, reference checksum), header ids/mode/direction, length field through encode/decode. NAK alphabet: empty, beyond EOF, longer than a segment, overlapping, unsorted, duplicated, the 0-0 marker; 1 (quick) / 2 (thorough) injected NAKs also during the first pass; real-receiver NAKs under F faults; user suspend/resume at the sender at every state (a NAK handed to a suspended sender must be answered after resume). Daemon level (daemon-dbx): on every PDU leaving a real daemon the sizes stated in Metadata and EOF(NoError) equal the source's, also when the Put names a symbolic link.",
             E1_NOTE + " Inverted ranges (start > end) are not in the alphabet: the property does not list them.", "DESIGN.md section 4 C07"),
     "C08": ("txn-mc", "model_checking",
             "explicit-state BFS to closure with drops-only pools large enough for every loss subset; fill-time oracle on the receiver's request queue (hook H3) and per-PDU well-formedness",
-            "Every subset of lost metadata/data segments for files of 0..2 (3 thorough) segments, EOF first / data after EOF / duplicated EOF / one prompt under F faults, four NAK procedures, segment size 16 (one request per NAK PDU) and 20/28 (capacity not a multiple of the request size, several separate gaps), 24 with delayed checks of different windows falling due together, link latency (wait events) giving delayed checks different due times, suspend/resume at the receiver: each NAK request non-empty or the marker, inside scope and file, PDU within the configured size, no unsolicited NAK before EOF (deferred), new gaps requested at once or after the delay (immediate), and whenever the request list is computed after EOF it equals exactly the bytes not yet delivered (+marker iff metadata missing); the receiver never finishes while something is missing.",
+            "Every subset of lost metadata/data segments for files of 0..2 (3 thorough) segments, EOF first / data after EOF / duplicated EOF / one prompt under F faults, four NAK procedures, segment size 16 (one request per NAK PDU) and 20/28 (capacity not a multiple of the request size, several separate gaps), 24 with delayed checks of different windows falling due together, link latency (wait events) giving delayed checks different due times, suspend/resume at the receiver: each NAK request non-empty or the marker, inside scope and file, PDU within the configured size, no unsolicited NAK before EOF (deferred), new gaps requested at once or after the delay (immediate), and whenever the request list is computed after EOF — or gets shorter without a NAK going out — it equals exactly the bytes not yet delivered (+marker iff metadata missing); loss combined with a timer expiry before EOF; the receiver never finishes while something is missing.",
             E1_NOTE, "DESIGN.md section 4 C08"),
     "C10": ("txn-mc", "model_checking",
             "explicit-state BFS to closure with one user cancel placed at every state, at either entity",
@@ -55,15 +55,15 @@ CHECKS = {
             "Boundary alphabets for numeric and string fields, not all values; only well-formed values are generated. One known finding (PDU::encoded_len overflows u16 for > 64 KiB PDUs) is listed in known_findings.json.", "DESIGN.md section 4 C05"),
     "C06": ("enum", "exploration",
             "bounded exhaustive enumeration of byte strings and of the mutation neighbourhood of a PDU corpus through every public decoder, under a counting global allocator; plus a running daemon fed with the rejected inputs",
-            "All byte strings of length <= 2 (quick) / 3 (thorough) and boundary-alphabet strings of length <= 6 / 8 through PDU::decode and every per-type decoder; for each corpus PDU (16 shapes x 2 file-size flags x 2 CRC settings) every truncation, every single-byte substitution, length/flag fields forced to boundary values, every octet forced to 0xFF/0xFE with 300 filler octets present behind it; all 2^16 header lengths x CRC flag: no panic (overflow checks on), no single allocation above 256 KiB, and whatever is accepted re-encodes (length recomputed) and decodes to itself.",
+            "All byte strings of length <= 2 (quick) / 3 (thorough) and boundary-alphabet strings of length <= 6 / 8 through PDU::decode and every per-type decoder; for each corpus PDU (16 shapes x 2 file-size flags x 2 CRC settings) every truncation, every single-byte substitution, length/flag fields forced to boundary values, every octet forced to 0xFF/0xFE with 300 filler octets present behind it; hand-assembled Finished PDUs whose response TLV fills 254/255 octets; all 2^16 header lengths x CRC flag: no panic (overflow checks on), no single allocation above 256 KiB, and whatever is accepted re-encodes (length recomputed) and decodes to itself.",
             "Length- and alphabet-bounded; two pruning rules (documented with their soundness argument in en_decode.rs) skip strings whose outcome is determined by a shorter prefix.", "DESIGN.md section 4 C06"),
     "C11": ("daemon-dbx", "model_checking",
             "deviation-bounded exhaustive scheduling of 2-3 real Daemon tasks (CHESS-style iterative bounding over take/deliver/drop/advance/user/stray choices) with per-transaction differential twins driven by the observed loop steps (hook H5)",
-            "Real daemons A, B (C thorough) with really spawned transaction tasks on a paused clock; T1 A->B acknowledged, T2 B->A unacknowledged with the same sequence number, T3 sharing A's transport slot, three Puts with the sequence counter starting at U8(254); every schedule with <= 2 (quick) / 3 (thorough) deviations from the default, deviations being cross-transaction reordering, drops, overtaking, stray PDUs (responses for senders that do not exist, an entity without transport, file data for an unknown id, replays of delivered PDUs, PDUs reflected back to the daemon that sent them), a burst of more copies of one PDU than a transaction's command queue holds, per-entity configurations that differ from the daemons' default at any point: Put ids distinct, each transaction's PDUs, indications, destination file and termination equal those of its isolated twin, daemons keep running and answering Report/Put after every stray, stray-started receivers end by their limits. The same runs validate E1's loop model against the real select! loops (single-transaction conformance).",
+            "Real daemons A, B (C thorough) with really spawned transaction tasks on a paused clock; T1 A->B acknowledged, T2 B->A unacknowledged with the same sequence number, T3 sharing A's transport slot, three Puts with the sequence counter starting at U8(254); every schedule with <= 2 (quick) / 3 (thorough) deviations from the default, deviations being cross-transaction reordering, drops, overtaking, stray PDUs (responses for senders that do not exist, misrouted responses whose source entity is the peer or unknown — nothing may run for them —, an entity without transport, file data for an unknown id, replays of delivered PDUs, PDUs reflected back to the daemon that sent them), a fire-and-forget Put (reply never read) before the last Put of every schedule, a burst of more copies of one PDU than a transaction's command queue holds, per-entity configurations that differ from the daemons' default at any point: Put ids distinct, each transaction's PDUs, indications, destination file and termination equal those of its isolated twin, daemons keep running and answering Report/Put after every stray, stray-started receivers end by their limits. The same runs validate E1's loop model against the real select! loops (single-transaction conformance).",
             "Tens of transactions are not reached: 3 transactions, 3 daemons. A transaction sends as soon as its slot is free and time does not pass while a slot is full. Twin divergence in single-transaction scenarios is reported as machinery error (MODEL-DIVERGENCE), in multi-transaction scenarios as isolation violation.", "DESIGN.md section 4 C11"),
     "C12": ("enum", "exploration",
             "bounded exhaustive enumeration of path names over a component alphabet for every filestore entry point; lexical oracle with an independent resolver plus before/after snapshot of everything outside the root",
-            "All names of <= 4 (quick) / 5 (thorough) components over {a, ., .., empty, the absolute root path, a sibling whose name extends the root's} with and without leading '/', through get_native_path, create/delete/rename/append/replace, create/remove/list directory, open (read, create-write), get_size and process_request with all nine actions, in a jail whose content outside the root is snapshotted around every operation and whose outside files carry a canary text that must never appear inside the root.",
+            "All names of <= 4 (quick) / 5 (thorough) components over {a, ., .., empty, the absolute root path, a sibling whose name extends the root's} with and without leading '/', each in three styles (joined by '/'; the same with the root configured with a trailing separator; joined and led by backslashes, which a Unix filestore must treat as ordinary characters), through get_native_path, create/delete/rename/append/replace, create/remove/list directory, open (read, create-write), get_size and process_request with all nine actions, in a jail whose content outside the root is snapshotted around every operation and whose outside files carry a canary text that must never appear inside the root.",
             "The harness's own path resolver and snapshot are trusted; operations whose effective path lies outside the jail are not executed (the harness runs as root) but reported. Symlinks are not part of the alphabet.", "DESIGN.md section 4 C12"),
     "C13": ("seq-mc", "model_checking",
             "explicit-state BFS over filestore states: every transition is the real NativeFileStore::process_request on a re-materialised tree, compared with a pure reference model; plus txn-mc scenarios carrying request lists",
@@ -83,7 +83,7 @@ CHECKS = {
             "Needs loopback UDP (available in this sandbox; the repository's own integration tests need it too).", "DESIGN.md section 4 C16"),
     "C17": ("txn-mc", "model_checking",
             "explicit-state BFS to closure with blackout at every state and delay faults, exact virtual timestamps; plus explicit-state search of the real Counter against an integer reference",
-            "Limits 1-2 (quick) / 1-3 (thorough) x handler table {unset, cancel, ignore, suspend, abandon} for positive-ack, NAK, inactivity and check-limit faults, blackout placed at every state plus one delay fault, late answers (F=2 drops+delay), checksum/size faults by an injected bad EOF, a timeout grid with the inactivity timeout shorter than the others: no limit fault earlier than max_count x timeout after the first unanswered transmission / the last PDU received, retransmissions never earlier than one timeout apart and exactly max_count transmissions before the fault, answers reset the count, and the action taken at every declared fault is the configured one (nothing transmitted after Abandon/Suspend).",
+            "Limits 1-2 (quick) / 1-3 (thorough) x handler table {unset, cancel, ignore, suspend, abandon} for positive-ack, NAK, inactivity and check-limit faults, blackout placed at every state plus one delay fault, late answers (F=2 drops+delay), checksum/size faults by an injected bad EOF, a timeout grid with the inactivity timeout shorter than the others: no limit fault earlier than max_count x timeout after the first unanswered transmission / the last PDU received, retransmissions never earlier than one timeout apart and exactly max_count transmissions before the fault, answers reset the count, the condition named is one that exists for that side and mode (acknowledged mode with the closure flag set included), a NAK limit is not declared right after new data reset the count (partial answers round after round), and the action taken at every declared fault is the configured one (nothing transmitted after Abandon/Suspend).",
             E1_NOTE + " Time does not pass while a transaction has a PDU ready for its transport (a local transport stalled for a whole timer period is not modelled).", "DESIGN.md section 4 C17"),
     "C09": ("seq-mc", "model_checking",
             "explicit-state BFS to closure over the real Segments::merge with a bit-set reference model, all queries evaluated in every state",
